@@ -34,6 +34,11 @@ func (state *State) BlockIsRequested(hash *bitcoin.Hash32) bool {
 	state.lock.Lock()
 	defer state.lock.Unlock()
 
+	// The block that is being processed is not in the block repository yet.
+	if state.processingBlock != nil && state.processingBlock.Equal(hash) {
+		return true
+	}
+
 	for _, item := range state.blocksRequested {
 		if item.hash == *hash {
 			return true
@@ -128,9 +133,20 @@ func (state *State) NextBlock() wire.Block {
 	result := state.blocksRequested[0].block
 	state.pendingBlockSize -= state.blocksRequested[0].size
 	state.lastSavedHash = state.blocksRequested[0].hash
-	state.blocksRequested = state.blocksRequested[1:] // Remove first item
+	state.processingBlock = &state.blocksRequested[0].hash // Until FinishedBlock is called
+	state.blocksRequested = state.blocksRequested[1:]      // Remove first item
 
 	return result
+}
+
+// FinishedBlock is called when the block returned by NextBlock has been processed. Until then the
+// block still counts as requested and outstanding: it is in neither the request list nor the block
+// repository, so otherwise its header looks unknown and the node looks in sync without it.
+func (state *State) FinishedBlock() {
+	state.lock.Lock()
+	defer state.lock.Unlock()
+
+	state.processingBlock = nil
 }
 
 func (state *State) GetNextBlockToRequest() (*bitcoin.Hash32, int) {
@@ -178,7 +194,8 @@ func (state *State) BlockRequestsEmpty() bool {
 	state.lock.Lock()
 	defer state.lock.Unlock()
 
-	return len(state.blocksToRequest) == 0 && len(state.blocksRequested) == 0
+	return len(state.blocksToRequest) == 0 && len(state.blocksRequested) == 0 &&
+		state.processingBlock == nil
 }
 
 func (state *State) LastHash() bitcoin.Hash32 {
